@@ -17,6 +17,8 @@
 -/
 import CdsVerif.Algo.MSPQ.Facts
 import CdsVerif.Algo.MSPQ.Slot
+import CdsVerif.Algo.MSPQ.Run
+import CdsVerif.Algo.MSPQ.NoOverlap
 namespace CdsVerif.Props.C11MSPQ
 open CdsVerif.Machine CdsVerif.Spec CdsVerif.Algo.MSPQ
 
@@ -313,5 +315,207 @@ theorem C11_mspq_quiescent_heap (k nthr : Nat) (hk : 1 ≤ k) (s : St) (h : (mod
   · intro i vi vp h2 hcap hav hvi hvp
     exact C11_mspq_heap_order k nthr hk s h i h2 hcap hav vi vp hvi hvp
       (fun t => by rw [hq t]; simp [sift]) (fun t => by rw [hq t]; simp [sift])
+
+/-! ## F. Non-vacuity: concrete runs of the machine (evaluated by the kernel) -/
+
+/-- Capacity 3: pop on the empty heap fails; three pushes by three threads succeed; the fourth push, on the full
+    heap, fails; the pops return the items in priority order, the last pop fails. -/
+example : rets (qcfg 2 3)
+    (whole 0 pop 2 ++ whole 0 (push 2001) 6 ++ whole 1 (push 3002) 10 ++ whole 2 (push 1003) 8 ++
+     whole 1 (push 4004) 2 ++ whole 0 pop 10 ++ whole 0 pop 8 ++ whole 0 pop 4 ++ whole 0 pop 2)
+    = some [(0, [0]), (0, [1]), (1, [1]), (2, [1]), (1, [0]), (0, [1, 3002]), (0, [1, 2001]), (0, [1, 1003]), (0, [0])] := by
+  decide +kernel
+
+/-- A schedule that asks for a disabled action is not a run: `ret` before the operation has finished. -/
+example : rets (qcfg 2 3) ([(0, push 2001)] ++ steps 0 5 ++ [(0, .ret)]) = none := by decide +kernel
+
+/-- Capacity 7, two concurrent pushes whose sift-ups interleave step by step (thread 1 inserts 3004 under node 2,
+    thread 2 inserts 2005 under node 3; both climb to level 1, thread 1 goes on to the root). -/
+def twoPushes : List (Tid × Act) :=
+  whole 0 (push 1001) 6 ++ whole 0 (push 1002) 8 ++ whole 0 (push 1003) 8 ++ [(1, push 3004), (2, push 2005)] ++
+  [(1, .step), (2, .step), (1, .step), (2, .step), (1, .step), (2, .step), (1, .step), (2, .step), (1, .step), (2, .step),
+   (1, .step), (2, .step), (1, .step), (2, .step), (1, .step), (2, .step), (1, .step), (2, .step), (1, .step), (2, .step),
+   (1, .step), (2, .step)]
+
+example : pcsAfter (qcfg 3 3) twoPushes = some [.idle, .hUnlPar 2 1, .acq (.hPar 3)] := by decide +kernel
+
+example : heapAfter (qcfg 3 3) (twoPushes ++ steps 1 3 ++ [(1, .ret)] ++ steps 2 4 ++ [(2, .ret)])
+    = some [(some 3004, .avail), (some 1001, .avail), (some 2005, .avail), (some 1002, .avail), (none, .empty),
+            (some 1003, .avail), (none, .empty)] := by decide +kernel
+
+/-- Capacity 7, a pop moves an item that a push is still sifting.  Thread 1 stores 4504 in slot 4 (tag = own 1) and
+    is preempted; thread 0 pushes 1005 (slot 6); thread 2 pops: the bottom item 1005 goes to the root and sifts down
+    1 → 2 → 4, which moves 4504 WITH ITS OWNER TAG up to slot 2 … -/
+def popMovesPushed : List (Tid × Act) :=
+  whole 0 (push 5001) 6 ++ whole 0 (push 4002) 8 ++ whole 0 (push 3003) 8 ++ [(1, push 4504)] ++ steps 1 4 ++
+  whole 0 (push 1005) 8 ++ whole 2 pop 14
+
+example : heapAfter (qcfg 3 3) popMovesPushed
+    = some [(some 4002, .avail), (some 4504, .own 1), (some 3003, .avail), (some 1005, .avail), (none, .empty),
+            (none, .empty), (none, .empty)] := by decide +kernel
+
+/-- … then thread 1 goes on: at slot 4 the tag is not its own (`item.tag != curId`: the item was moved), it follows
+    the item to slot 2, finds its tag there, compares with the root and makes the item Available. -/
+example : (trace (qcfg 3 3) (popMovesPushed ++ steps 1 8 ++ [(1, .ret)])).map (·.drop 48)
+    = some [(1, ⟨"xchg", "lk2", "0", "1"⟩), (1, ⟨"xchg", "lk4", "0", "1"⟩), (1, ⟨"st", "lk4", "0", ""⟩),
+            (1, ⟨"st", "lk2", "0", ""⟩), (1, ⟨"xchg", "lk1", "0", "1"⟩), (1, ⟨"xchg", "lk2", "0", "1"⟩),
+            (1, ⟨"st", "lk2", "0", ""⟩), (1, ⟨"st", "lk1", "0", ""⟩)] := by decide +kernel
+
+example : heapAfter (qcfg 3 3) (popMovesPushed ++ steps 1 8 ++ [(1, .ret)])
+    = some [(some 4002, .avail), (some 4504, .avail), (some 3003, .avail), (some 1005, .avail), (none, .empty),
+            (none, .empty), (none, .empty)] := by decide +kernel
+
+/-- A spin lock that is busy: thread 2 asks for the size lock while thread 1 holds it (`xchg szlock 1 1`, then the
+    wait loop `ld szlock 1`), as the harness prints it. -/
+example : trace (qcfg 2 3) [(1, push 2001), (1, .step), (2, pop), (2, .step), (2, .step), (1, .step), (1, .step), (2, .step), (2, .step)]
+    = some [(1, ⟨"xchg", "szlock", "0", "1"⟩), (2, ⟨"xchg", "szlock", "1", "1"⟩), (2, ⟨"ld", "szlock", "1", ""⟩),
+            (1, ⟨"xchg", "lk1", "0", "1"⟩), (1, ⟨"st", "szlock", "0", ""⟩), (2, ⟨"ld", "szlock", "0", ""⟩),
+            (2, ⟨"xchg", "szlock", "0", "1"⟩)] := by decide +kernel
+
+/-! ## A leaked owner tag: "all tags are Available at quiescence" is FALSE when a push overlaps pops
+
+  Capacity 15.  The heap holds 100001 90002 50003 80004 30005 15006 50007.  Thread 1 stores 20008 in slot 8 (tag =
+  own 1) and is preempted before `heapify_after_push`.  Thread 2 pushes 10009 and pops six times: the first two pops
+  move 20008, still tagged own 1, from slot 8 to slot 4 to slot 2; the next pops empty slots 7, 5, 6, 4 (so slot 8
+  and its parent 4 are Empty) and the last one moves 20008 to the root.  Thread 1 resumes: the parent of slot 8 is
+  Empty, `heapify_after_push` takes this for "the item was moved to the top and deleted", and `push` returns true.
+  All threads are idle, and the root is still tagged with the id of thread 1.  A later push whose item climbs to a
+  child of that node loops for ever in the "no progress" branch, even when it runs completely alone.
+  The same run on the real code: harness variant `imspq_stale` (see the final report / DESIGN.md); the real trace is
+  replayed by this machine. -/
+def staleRun : List (Tid × Act) :=
+  whole 0 (push 100001) 6 ++ whole 0 (push 90002) 8 ++ whole 0 (push 50003) 8 ++ whole 0 (push 80004) 8 ++
+  whole 0 (push 30005) 8 ++ whole 0 (push 15006) 8 ++ whole 0 (push 50007) 8 ++
+  [(1, push 20008)] ++ steps 1 4 ++
+  whole 2 (push 10009) 8 ++ whole 2 pop 18 ++ whole 2 pop 16 ++ whole 2 pop 10 ++ whole 2 pop 16 ++ whole 2 pop 12 ++
+  whole 2 pop 12 ++
+  steps 1 4 ++ [(1, .ret)]
+
+example : rets (qcfg 4 3) staleRun
+    = some [(0, [1]), (0, [1]), (0, [1]), (0, [1]), (0, [1]), (0, [1]), (0, [1]), (2, [1]), (2, [1, 100001]),
+            (2, [1, 90002]), (2, [1, 80004]), (2, [1, 50007]), (2, [1, 50003]), (2, [1, 30005]), (1, [1])] := by
+  decide +kernel
+
+example : pcsAfter (qcfg 4 3) staleRun = some [.idle, .idle, .idle] := by decide +kernel
+
+example : (heapAfter (qcfg 4 3) staleRun).map (·.take 4)
+    = some [(some 20008, .own 1), (some 10009, .avail), (some 15006, .avail), (none, .empty)] := by decide +kernel
+
+/-- A push by thread 2, running alone after that, is still in the loop of `heapify_after_push` after 400 steps
+    (its item 25010 is in slot 2, tagged own 2, under the root tagged own 1). -/
+example : pcsAfter (qcfg 4 3) (staleRun ++ [(2, push 25010)] ++ steps 2 400) = some [.idle, .idle, .acq (.hPar 2)] := by
+  decide +kernel
+
+set_option maxRecDepth 100000 in
+/-- **The literal claim fails**: there is a reachable quiescent state with a node tagged by an owner id. -/
+theorem C11_mspq_stale_tag_witness :
+    ∃ s, (model (qcfg 4 3)).Reachable init s ∧ Quiescent s ∧ s.tag 1 = .own 1 := by
+  cases hrun : (model (qcfg 4 3)).run init staleRun with
+  | none =>
+    have : ((model (qcfg 4 3)).run init staleRun).isSome = true := by decide +kernel
+    rw [hrun] at this; cases this
+  | some r =>
+    have hreach : (model (qcfg 4 3)).Reachable init r.1 := ⟨staleRun, r.2, hrun⟩
+    refine ⟨r.1, hreach, ?_, ?_⟩
+    · intro (t : Nat)
+      by_cases ht : t < 3
+      · have htc : t = 0 ∨ t = 1 ∨ t = 2 := by omega
+        have h3 : pcsAfter (qcfg 4 3) staleRun = some [.idle, .idle, .idle] := by decide +kernel
+        simp only [pcsAfter, hrun, Option.map_some, Option.some.injEq] at h3
+        have h0 : (List.range 3).map r.1.pc = [r.1.pc 0, r.1.pc 1, r.1.pc 2] := rfl
+        have hc : (qcfg 4 3).nthr = 3 := rfl
+        rw [hc, h0] at h3
+        injection h3 with a h3; injection h3 with b h3; injection h3 with c' h3
+        rcases htc with rfl | rfl | rfl <;> assumption
+      · apply Classical.byContradiction; intro hne
+        exact ht ((mspq_invariant 4 3 (by decide) r.1 hreach).l.thr t hne)
+    · have h4 : ((model (qcfg 4 3)).run init staleRun).map (fun r => r.1.tag 1) = some (.own 1) := by decide +kernel
+      simpa [hrun] using h4
+
+/-! ## D/E. Runs in which no push overlaps a pop
+
+  `modelNO` is the machine whose clients invoke `push` only while no `pop` is in flight and `pop` only while no
+  `push` is in flight (pushes may overlap pushes, pops may overlap pops; every schedule of the steps).  Every such
+  run is a run of the unrestricted machine (`C11_mspq_no_overlap_is_a_run`), so A - D above hold of it. -/
+
+theorem C11_mspq_no_overlap_is_a_run (k nthr : Nat) (sched : List (Tid × Act)) (s : St) (os : List (Tid × Obs))
+    (h : (modelNO (qcfg k nthr)).run init sched = some (s, os)) :
+    (model (qcfg k nthr)).run init sched = some (s, os) :=
+  runNO_sub _ sched init s os h
+
+/-- **Owner tags do not leak when no push overlaps a pop**: in every reachable state a node tagged with the id of
+    thread `t` is the node at which `t`'s `heapify_after_push` currently is; while a pop is in flight no node carries
+    an owner tag. -/
+theorem C11_mspq_no_overlap_tags (k nthr : Nat) (hk : 1 ≤ k) (s : St)
+    (h : (modelNO (qcfg k nthr)).Reachable init s) :
+    (∀ j t, s.tag j = .own t → pushIdx (s.pc t) = some j) ∧
+    (∀ t, isPop (s.pc t) = true → ∀ j t', s.tag j ≠ .own t') := by
+  have hn := ninv_reachable (slotOK_cfg k nthr hk) s h
+  exact ⟨hn.tg.tc, fun t hp j t' => no_own_while_pop hn.tg t hp j t'⟩
+
+/-- **C11_mspq_quiescent_tags_available** (heap shape at quiescence, as the property states it).  At every quiescent
+    point of a run in which no push overlaps a pop: all locks are free, the occupied slots are exactly the first `cnt`
+    slots of the bit-reversed order, ALL their tags are Available, every non-root occupied slot carries at most the
+    priority of its parent, and the root carries a maximal priority. -/
+theorem C11_mspq_quiescent_tags_available (k nthr : Nat) (hk : 1 ≤ k) (s : St)
+    (h : (modelNO (qcfg k nthr)).Reachable init s) (hq : Quiescent s) :
+    (∀ l, s.lk l = false) ∧
+    (∀ i, 1 ≤ i → i ≤ 2 ^ k - 1 → (s.val i ≠ none ↔ bslot i ≤ s.cnt)) ∧
+    (∀ i, s.val i ≠ none → s.tag i = .avail) ∧
+    (∀ i vi vp, 2 ≤ i → i ≤ 2 ^ k - 1 → s.val i = some vi → s.val (i / 2) = some vp → prio vi ≤ prio vp) ∧
+    (∀ i vi, 1 ≤ i → i ≤ 2 ^ k - 1 → s.val i = some vi → ∃ v1, s.val 1 = some v1 ∧ prio vi ≤ prio v1) := by
+  have hn := ninv_reachable (slotOK_cfg k nthr hk) s h
+  obtain ⟨sched, os, hrun⟩ := h
+  have hreach : (model (qcfg k nthr)).Reachable init s := ⟨sched, os, runNO_sub _ sched init s os hrun⟩
+  obtain ⟨h1, h2, h3, h4⟩ := C11_mspq_quiescent_heap k nthr hk s hreach hq
+  have hav : ∀ i, s.val i ≠ none → s.tag i = .avail := by
+    intro i hv
+    cases ht : s.tag i with
+    | empty => exact absurd (hn.m.sh.te1 i ht) hv
+    | avail => rfl
+    | own t => exact absurd ht (quiescent_tags_available hn.tg hq i t)
+  refine ⟨h1, h2, hav, ?_, ?_⟩
+  · intro i vi vp hi2 hcap hvi hvp
+    exact h4 i vi vp hi2 hcap (hav i (by rw [hvi]; simp)) hvi hvp
+  · intro i vi hi1 hcap hvi
+    exact root_is_max (slotOK_cfg k nthr hk) hn hq i vi hi1 hcap hvi
+
+/-- **C11_mspq_sequential_linearizable, PARTIAL**: the representation invariant behind the "no push overlaps a pop"
+    clause.  At every quiescent point of such a run the array is a max-heap (previous theorem) whose content is, as
+    a multiset, exactly the pushed items minus the popped ones.
+
+    NOT proved here (the full statement):
+
+      theorem C11_mspq_sequential_linearizable (sched) (s) (os)
+          (h : (modelNO (qcfg k nthr)).run init sched = some (s, os)) (hq : Quiescent s) :
+          Linearizable (Spec.maxpq (2 ^ k - 1)) (historyOf os)
+
+    Missing: the history bookkeeping (a ghost log with one entry per operation, appended while the operation holds
+    the size lock - `push` when it reads the counter, `pop` when it has locked the root, which is when its return
+    value is fixed), the proof that the log is a legal run of `Spec.maxpq` (for `pop`: the value taken from the root
+    is maximal among the array items, which follows from `C11_mspq_heap_order` in a state without owner tags,
+    `C11_mspq_no_overlap_tags`), and that the order of the log respects real time.  The three facts such a proof rests
+    on are theorems of this file: conservation, "push fails only when full" / "pop fails only when empty", and the
+    max-heap shape without owner tags.  The verdict on real histories of this kind comes from tie H (the verified
+    checker `C11_history_oracle_exact` run on the harness variants `*_pops` / `*_pushes`). -/
+theorem C11_mspq_sequential_linearizable_partial (k nthr : Nat) (hk : 1 ≤ k) (s : St)
+    (h : (modelNO (qcfg k nthr)).Reachable init s) (hq : Quiescent s) :
+    (arrayItems (qcfg k nthr) s ++ s.outs).Perm s.ins ∧
+    (∀ i vi, 1 ≤ i → i ≤ 2 ^ k - 1 → s.val i = some vi → ∃ v1, s.val 1 = some v1 ∧ prio vi ≤ prio v1) := by
+  obtain ⟨sched, os, hrun⟩ := h
+  have hreach : (model (qcfg k nthr)).Reachable init s := ⟨sched, os, runNO_sub _ sched init s os hrun⟩
+  exact ⟨C11_mspq_conservation_quiescent k nthr hk s hreach hq,
+    (C11_mspq_quiescent_tags_available k nthr hk s ⟨sched, os, hrun⟩ hq).2.2.2.2⟩
+
+/-- The no-overlap machine is not vacuous: the capacity-3 run of section F is a run of it, and the run with the
+    leaked tag is NOT (its pops are invoked while the push of thread 1 is in flight). -/
+example : ((modelNO (qcfg 2 3)).run init
+    (whole 0 pop 2 ++ whole 0 (push 2001) 6 ++ whole 1 (push 3002) 10 ++ whole 2 (push 1003) 8 ++
+     whole 1 (push 4004) 2 ++ whole 0 pop 10 ++ whole 0 pop 8 ++ whole 0 pop 4 ++ whole 0 pop 2)).isSome = true := by
+  decide +kernel
+
+example : ((modelNO (qcfg 3 3)).run init twoPushes).isSome = true := by decide +kernel
+
+example : ((modelNO (qcfg 4 3)).run init staleRun).isSome = false := by decide +kernel
 
 end CdsVerif.Props.C11MSPQ
